@@ -183,6 +183,7 @@ pub fn run_c07(args: &Args) -> i32 {
         all
     });
     let mut evaluations = 0u64;
+    let mut nontrivial = 0u64;
     let mut per_driver = vec![];
     let mut machinery = vec![];
     for (name, stdout, stderr, status, secs) in &results {
@@ -197,6 +198,10 @@ pub fn run_c07(args: &Args) -> i32 {
             }
         }
         evaluations += cov;
+        // C14 / C16 / C19 drive code without unchecked operations, table lookups or fixed-capacity lists
+        if !matches!(name.as_str(), "C14" | "C16" | "C19") {
+            nontrivial += cov;
+        }
         let crashes = scan(name, stderr, *status);
         per_driver.push(json!({"driver": name, "cases_executed": cov, "exit_status": status, "crash_reports": crashes.len(), "wall_s": (secs * 10.0).round() / 10.0}));
         if cov == 0 && crashes.is_empty() {
@@ -219,8 +224,8 @@ pub fn run_c07(args: &Args) -> i32 {
     report.finish(
         json!({
             "evaluations": evaluations,
-            "distinct_nontrivial": evaluations,
-            "rule": "the exhaustive drivers of C01, C03, C06 (every accepted board additionally driven through every safe operation two plies deep), C08, C10, C11 (every expiry point, plugin included), C12, C15, C17, C18 (thorough: also C02, C05, C13, C19) and an extremal-position driver (18-entry move lists, maximal mobility, positions the parser accepts outside the admissible-root set, degenerate search roots driven for 70 000 passes, 300 occurrences of one position in the repetition table) executed in the trapping build flavour inside worker processes; a case = one input/sequence of those drivers; all of them are distinct by construction and every one is a crash probe.",
+            "distinct_nontrivial": nontrivial,
+            "rule": "non-trivial = cases of the drivers whose subject code contains unchecked operations, table lookups or the fixed-capacity move list (all but C14, C16, C19). The exhaustive drivers of C01, C03, C06 (every accepted board additionally driven through every safe operation two plies deep), C08, C10, C11 (every expiry point, plugin included), C12, C15, C17, C18 (thorough: also C02, C05, C13, C19) and an extremal-position driver (18-entry move lists, maximal mobility, positions the parser accepts outside the admissible-root set, degenerate search roots driven for 70 000 passes, 300 occurrences of one position in the repetition table) executed in the trapping build flavour inside worker processes; a case = one input/sequence of those drivers; all of them are distinct by construction and every one is a crash probe.",
             "drivers": per_driver,
             "flavour": "profile checked: opt-level 3, debug-assertions on, overflow-checks on, -Ctarget-cpu=native",
             "exhaustive": true,
